@@ -94,12 +94,12 @@ def directory_deps(targets):
 def directory_rule(build_inputs, buildfile, env):
     mkdir_p = env.tool('mkdir_p')
     pattern = Pattern(os.path.join('%', dir_sentinel))
-    path = Function('patsubst', pattern, Pattern('%'), var('@'), quoted=True)
-
     buildfile.rule(
         target=pattern,
         recipe=[
-            Silent(mkdir_p(path)),
+            # Use the stem rather than `$(patsubst ...)`, since the latter
+            # splits its argument into words and collapses runs of spaces.
+            Silent(mkdir_p(qvar('*'))),
             Silent(['touch', qvar('@')])
         ]
     )
